@@ -38,7 +38,7 @@ MaxPers(d) == Max({0} \cup {d[j][2] - d[j][1] : j \in 1..Len(d)})
 (* ---- exact anchors ---- *)
 RECURSIVE Pow2Neg(_)
 Pow2Neg(n) == IF n <= 0 THEN FInt(1) ELSE IF n > 60 THEN FZero ELSE FDivInt(Pow2Neg(n - 1), 2)
-Sq(x) == x * x
+Sq(x) == IF AbsI(x) > 100 THEN 10000 ELSE x * x     \* capped: 2^-10000 = 0 at this resolution, and no 32-bit overflow
 \* multi-scale kernel with sigma = 1/(8 ln 2), without its normalisation ln2/pi:  sum 2^-|p-q|^2 - 2^-|p-mirror(q)|^2
 K2(F, G) == LET term(i, j) == FSub(Pow2Neg(Sq(F[i][1] - G[j][1]) + Sq(F[i][2] - G[j][2])), Pow2Neg(Sq(F[i][1] - G[j][2]) + Sq(F[i][2] - G[j][1])))
                 RECURSIVE Acc(_, _)
